@@ -45,7 +45,7 @@ func (c07) Rule() string {
 }
 
 type c07Table struct {
-	t      codon.Table
+	tp     *codon.Table // shared by every snapshot of the same table: re-weighting replaces *tp
 	desc   string
 	letter map[string]string         // triplet -> letter
 	w      map[string]map[string]int // letter -> triplet -> weight
@@ -71,7 +71,7 @@ func c07DeepDefault(id int) codon.Table {
 }
 
 func c07Index(t codon.Table, desc string) *c07Table {
-	x := &c07Table{t: t, desc: desc, letter: map[string]string{}, w: map[string]map[string]int{}, sum: map[string]int{}}
+	x := &c07Table{tp: &t, desc: desc, letter: map[string]string{}, w: map[string]map[string]int{}, sum: map[string]int{}}
 	for _, aa := range t.AminoAcids {
 		x.w[aa.Letter] = map[string]int{}
 		for _, c := range aa.Codons {
@@ -93,7 +93,7 @@ func c07Index(t codon.Table, desc string) *c07Table {
 // withWeights is the model of re-weighting the same table storage in place:
 // same codon.Table value (same slices), new weights.
 func (x *c07Table) withWeights(w func(letter, triplet string) int, desc string) *c07Table {
-	n := &c07Table{t: x.t, desc: desc, letter: x.letter, w: map[string]map[string]int{}, sum: map[string]int{}}
+	n := &c07Table{tp: x.tp, desc: desc, letter: x.letter, w: map[string]map[string]int{}, sum: map[string]int{}}
 	var letters []string
 	for l := range x.w {
 		letters = append(letters, l)
@@ -252,7 +252,7 @@ func c07CheckDNA(x *c07Table, protein, dna string, err error) string {
 			return fmt.Sprintf("residue %d (%s): emitted codon %s has weight %d of %d (share not above 10%%)", i, l, tr, x.w[l][tr], x.sum[l])
 		}
 	}
-	back, terr := codon.Translate(dna, x.t)
+	back, terr := codon.Translate(dna, *x.tp)
 	if terr != nil || back != protein {
 		return fmt.Sprintf("Translate(Optimize(p)) = %q, %v", clip(back), terr)
 	}
@@ -486,9 +486,11 @@ func (c07) Run(t *testing.T, tape *core.Tape, rcx *RunCtx) *core.Result {
 		sleep(cl.step)
 		if cl.op == 2 {
 			if cl.rwSeq != "" {
-				cl.tab.t.OptimizeTable(cl.rwSeq)
+				// the result is what later calls use: correct whether OptimizeTable re-weights its
+				// receiver's storage in place or returns an independent table
+				*cl.tab.tp = cl.tab.tp.OptimizeTable(cl.rwSeq)
 			} else {
-				t := cl.tab.t
+				t := *cl.tab.tp
 				for a := range t.AminoAcids {
 					for k := range t.AminoAcids[a].Codons {
 						t.AminoAcids[a].Codons[k].Weight = cl.rwDirect[t.AminoAcids[a].Letter][t.AminoAcids[a].Codons[k].Triplet]
@@ -504,7 +506,7 @@ func (c07) Run(t *testing.T, tape *core.Tape, rcx *RunCtx) *core.Result {
 			if cl.fromGen {
 				cl.protein = lastGen[c]
 			}
-			cl.dna, cl.err = codon.Optimize(cl.protein, cl.tab.t)
+			cl.dna, cl.err = codon.Optimize(cl.protein, *cl.tab.tp)
 		}
 		cl.done = true
 	}
@@ -761,7 +763,7 @@ func c07Proportion(t *testing.T, tape *core.Tape, rcx *RunCtx, res *core.Result)
 					continue // not C07's subject; only identical requests are tallied
 				}
 			}
-			dna, err := codon.Optimize(protein, x.t)
+			dna, err := codon.Optimize(protein, *x.tp)
 			if d := c07CheckDNA(x, protein, dna, err); d != "" && firstBad == "" {
 				firstBad = d
 				return
